@@ -38,6 +38,9 @@ pub fn fragments() -> Vec<(&'static str, F)> {
         ("(S.S)", p(F::S, F::S)),
         ("((x.S).S)", p(p(F::X, F::S), F::S)),
         ("(S.(xy.S))", p(F::S, p(xy(), F::S))),
+        // '#': identical sub-fragments are ONE shared node (the sentinel is reached twice through one pair)
+        ("((x.S).(x.S))#", p(p(F::X, F::S), p(F::X, F::S))),
+        ("(xy.((x.S).(x.S)))#", p(xy(), p(p(F::X, F::S), p(F::X, F::S)))),
     ]
 }
 fn count_s(f: &F) -> usize {
@@ -113,6 +116,24 @@ struct World {
     y: NodePtr,
     reuse: Vec<NodePtr>,
 }
+/// like build_frag, but structurally equal sub-fragments become one shared node
+fn build_frag_shared(a: &mut Allocator, f: &F, s: NodePtr, x: NodePtr, y: NodePtr, memo: &mut Vec<(F, NodePtr)>) -> NodePtr {
+    if let Some((_, n)) = memo.iter().find(|(g, _)| g == f) {
+        return *n;
+    }
+    let n = match f {
+        F::X => x,
+        F::Y => y,
+        F::S => s,
+        F::P(l, r) => {
+            let l = build_frag_shared(a, l, s, x, y, memo);
+            let r = build_frag_shared(a, r, s, x, y, memo);
+            a.new_pair(l, r).unwrap()
+        }
+    };
+    memo.push((f.clone(), n));
+    n
+}
 fn build_frag(a: &mut Allocator, f: &F, s: NodePtr, x: NodePtr, y: NodePtr, fresh_atoms: bool) -> NodePtr {
     match f {
         F::X => if fresh_atoms { a.new_atom(b"foobar").unwrap() } else { x },
@@ -131,8 +152,8 @@ fn world() -> World {
     let x = a.new_atom(b"foobar").unwrap();
     let y = a.new_atom(b"bazbaz").unwrap();
     let mut reuse = vec![];
-    for (_, f) in fragments() {
-        let n = build_frag(&mut a, &f, sentinel, x, y, false);
+    for (name, f) in fragments() {
+        let n = if name.ends_with('#') { build_frag_shared(&mut a, &f, sentinel, x, y, &mut vec![]) } else { build_frag(&mut a, &f, sentinel, x, y, false) };
         reuse.push(n);
     }
     World { a, sentinel, x, y, reuse }
@@ -162,7 +183,13 @@ pub fn run_history(h: &[Ev], salt: Option<u64>) -> Outcome {
         match ev {
             Ev::Add(fi, reuse) => {
                 let f = &fr[*fi as usize].1;
-                let node = if *reuse { w.reuse[*fi as usize] } else { build_frag(&mut w.a, f, w.sentinel, w.x, w.y, true) };
+                let node = if *reuse {
+                    w.reuse[*fi as usize]
+                } else if fr[*fi as usize].0.ends_with('#') {
+                    build_frag_shared(&mut w.a, f, w.sentinel, w.x, w.y, &mut vec![])
+                } else {
+                    build_frag(&mut w.a, f, w.sentinel, w.x, w.y, true)
+                };
                 let before = ser.get_ref().clone();
                 let mbefore = model.clone();
                 let (d, undo) = match ser.add(&w.a, node) {
@@ -342,6 +369,9 @@ pub fn run(ctx: &Ctx) -> Report {
         Space { name: "N", frags: single.clone(), reuse_ok: vec![], max_adds: 3, max_undos: 1, max_events: 4 },
         // B: fragments with repeated sentinels, fresh nodes, no undo
         Space { name: "B", frags: all.clone(), reuse_ok: vec![], max_adds: 4, max_undos: 0, max_events: 4 },
+        // S: fragments whose two sentinel occurrences are reached through ONE shared pair node, followed by plain
+        //    and tail-sentinel fragments, one undo
+        Space { name: "S", frags: { let mut v: Vec<u8> = ["x", "xy", "(x.S)", "(xy.S)"].iter().map(|n| idx(n)).collect(); v.push(idx("((x.S).(x.S))#")); v.push(idx("(xy.((x.S).(x.S)))#")); v }, reuse_ok: vec![], max_adds: 4, max_undos: 1, max_events: 5 },
         // C: any single-sentinel fragment re-used through one NodePtr, no undo
         Space { name: "C", frags: single.clone(), reuse_ok: single.clone(), max_adds: 3, max_undos: 0, max_events: 3 },
     ];
@@ -350,10 +380,82 @@ pub fn run(ctx: &Ctx) -> Report {
         notes.push(explore(ctx, sp, &mut rep, &sl));
     }
     rep.note("spaces", json!(notes));
+    // long-list family: (blob 1 2 ... n blob) added in two pieces (split after k items, sentinel as the tail of the
+    // first piece), with and without an undone add in between: the back-reference to `blob` crosses the two adds
+    // with a path of about n bits — every n up to 160|600 (path buffers of 64, 128, 256, 512 bits are crossed)
+    {
+        let mut acc = Acc::default();
+        let nmax = ctx.pick(160usize, 600);
+        for n in 1..=nmax {
+            for split in [1usize, 1 + n / 2, n + 1] {
+                for with_undo in [false, true] {
+                    let canon = format!("long list n={n} split={split} undone_add_between={with_undo}");
+                    guarded(&mut acc, &canon, |acc| {
+                        acc.inc("long_list_histories");
+                        let mut a = Allocator::new();
+                        let sentinel = a.new_pair(NodePtr::NIL, NodePtr::NIL).unwrap();
+                        let blob = a.new_atom(&[0x5a; 100]).unwrap();
+                        let other = a.new_atom(b"something else").unwrap();
+                        let mut items = vec![blob];
+                        let mut model_items = vec![atom(&[0x5a; 100])];
+                        for i in 1..=n {
+                            items.push(a.new_small_number(i as u32).unwrap());
+                            model_items.push(crate::tree::int_atom(i as i128));
+                        }
+                        items.push(blob);
+                        model_items.push(atom(&[0x5a; 100]));
+                        let mk = |a: &mut Allocator, it: &[NodePtr], tail: NodePtr| it.iter().rev().fold(tail, |t, i| a.new_pair(*i, t).unwrap());
+                        let t1 = mk(&mut a, &items[..split], sentinel);
+                        let t2 = mk(&mut a, &items[split..], NodePtr::NIL);
+                        let t_undone = a.new_pair(other, sentinel).unwrap();
+                        let expect = model_items.iter().rev().fold(atom(&[]), |t, i| cons(i.clone(), t));
+                        let mut ser = Serializer::new(Some(sentinel));
+                        let r: Result<(), String> = (|| {
+                            let (d, _) = ser.add(&a, t1).map_err(|e| e.to_string())?;
+                            if d {
+                                return Err("done after the first piece".into());
+                            }
+                            if with_undo {
+                                let before = ser.get_ref().clone();
+                                let (d, undo) = ser.add(&a, t_undone).map_err(|e| e.to_string())?;
+                                if d {
+                                    return Err("done after a piece that ends in the sentinel".into());
+                                }
+                                ser.restore(undo);
+                                if ser.get_ref() != &before || ser.size() != before.len() as u64 {
+                                    return Err("undo did not restore the bytes".into());
+                                }
+                            }
+                            let (d, _) = ser.add(&a, t2).map_err(|e| e.to_string())?;
+                            if !d {
+                                return Err("not done after the last piece".into());
+                            }
+                            Ok(())
+                        })();
+                        if let Err(e) = r {
+                            acc.violation(canon.clone(), e);
+                            return;
+                        }
+                        let bytes = ser.into_inner();
+                        let mut da = Allocator::new();
+                        let r1 = node_from_bytes_backrefs(&mut da, &bytes).map(|n| tree::read(&da, n));
+                        let r3 = refserde::deser_backrefs(&bytes).map(|d| d.tree);
+                        if r1.as_ref().ok() != Some(&expect) || r3.as_ref() != Some(&expect) {
+                            acc.violation(canon.clone(), format!("completed serialization ({} bytes) does not decode to the list", bytes.len()));
+                        } else {
+                            acc.inc("completed_serializations");
+                        }
+                    });
+                }
+            }
+        }
+        rep.transitions += acc.get("long_list_histories");
+        rep.absorb(acc);
+    }
     rep.traces = rep.transitions;
     rep.evaluations = rep.transitions + rep.acc.get("salted_runs");
     rep.nontrivial = rep.acc.get("completed_serializations");
-    rep.rule = format!("explicit-state search over add/undo histories of the real Serializer, three spaces (see notes.spaces): {} fragments over two 6-byte atoms, xy=(x . y) and 0, 1 or 2 sentinel occurrences in every position; each add allocates the fragment anew (F) or re-uses one NodePtr (R); events Add(f), Undo to any saved state (the deviation that is bounded); each history is replayed on a fresh Serializer, a violating history is reported once and not extended. Oracle: after an undo get_ref()/size() equal the bytes recorded before the undone add; add returns done exactly when the assembled tree has no unfilled sentinel; completed bytes decode (new, legacy, reference decoder) to the tree assembled by filling sentinel positions in serialization order; byte traces equal across hashing salts (hook H3). Non-trivial = histories that complete a serialization.", fr.len());
+    rep.rule = format!("explicit-state search over add/undo histories of the real Serializer, five spaces (see notes.spaces) plus a long-list family (every distance 1..160|600 between two occurrences of one atom split over two adds, with/without an undone add in between): {} fragments over two 6-byte atoms, xy=(x . y) and 0, 1 or 2 sentinel occurrences in every position; each add allocates the fragment anew (F) or re-uses one NodePtr (R); events Add(f), Undo to any saved state (the deviation that is bounded); each history is replayed on a fresh Serializer, a violating history is reported once and not extended. Oracle: after an undo get_ref()/size() equal the bytes recorded before the undone add; add returns done exactly when the assembled tree has no unfilled sentinel; completed bytes decode (new, legacy, reference decoder) to the tree assembled by filling sentinel positions in serialization order; byte traces equal across hashing salts (hook H3). Non-trivial = histories that complete a serialization.", fr.len());
     rep.assumptions.push("sentinel positions are filled in serialization (pre-order) order by successive additions".into());
     rep
 }
